@@ -17,15 +17,47 @@ def glob_ref(n, name=None):
 
 
 # --------------------------------------------------------------------------- WRAP
+def _local_defs(f, d):
+    out = []
+    for x in walk(f.body):
+        if x.get("k") == "assign" and x.get("op") == "=" and X.strip(x["ch"][0]).get("d") == d:
+            out.append(x["ch"][1])
+        if x.get("k") == "decl":
+            for dcl in x.get("decls", ()):
+                if dcl["d"] == d and dcl.get("init") is not None:
+                    out.append(dcl["init"])
+    return out
+
+
+def _growth_factor(f, rhs, cntname, depth=0):
+    """('mul'|'add', k, width of the intermediate or None) if rhs computes CNT * k / CNT + k (directly or through a local)"""
+    r = X.strip(rhs)
+    if r is None or depth > 3:
+        return None
+    if r.get("k") == "bin" and r.get("op") in ("*", "+"):
+        for x, y in ((r["ch"][0], r["ch"][1]), (r["ch"][1], r["ch"][0])):
+            if glob_ref(x, cntname) is not None and X.const_val(y) is not None:
+                return ("mul" if r["op"] == "*" else "add", X.const_val(y), None)
+    if r.get("k") == "ref" and r.get("rk") == "local":
+        for dfn in _local_defs(f, r["d"]):
+            g = _growth_factor(f, dfn, cntname, depth + 1)
+            if g is not None:
+                w = f.vardecls.get(r["d"], {}).get("tw")
+                return (g[0], g[1], min(w, g[2]) if (w and g[2]) else (w or g[2]))
+    return None
+
+
 def growth_sites(unit):
-    """[(function, idx global, cnt global, factor, if-node)] for  if (++IDX == CNT) { CNT *= k; TAB = REALLOC(..) }"""
+    """[(function, idx global, cnt global, factor, if-node)] for the table-growth idiom: a test IDX == CNT (with the increment of
+    IDX in the test or before it) whose true arm enlarges CNT - `CNT *= k`, `CNT = CNT * k`, or through a local
+    (`new = CNT * k; ...; CNT = new`).  factor = (kind, k, width of a narrower intermediate or None)."""
     res = []
     for f in unit.functions.values():
         for n in walk(f.body):
             if n.get("k") != "if":
                 continue
             c = X.strip(n["cond"])
-            if c.get("k") != "bin" or c.get("op") != "==":
+            if c.get("k") != "bin" or c.get("op") not in ("==", ">="):
                 continue
             a, b = X.strip(c["ch"][0]), X.strip(c["ch"][1])
             idx = cnt = None
@@ -44,13 +76,11 @@ def growth_sites(unit):
             for m in walk(n["then"]):
                 if m.get("k") == "assign" and glob_ref(m["ch"][0], cnt["n"]) is not None:
                     if m.get("op") == "*=" and X.const_val(m["ch"][1]) is not None:
-                        factor = ("mul", X.const_val(m["ch"][1]))
+                        factor = ("mul", X.const_val(m["ch"][1]), None)
                     elif m.get("op") == "+=" and X.const_val(m["ch"][1]) is not None:
-                        factor = ("add", X.const_val(m["ch"][1]))
+                        factor = ("add", X.const_val(m["ch"][1]), None)
                     elif m.get("op") == "=":
-                        r = X.strip(m["ch"][1])
-                        if r.get("k") == "bin" and r.get("op") in ("*", "+") and X.const_val(r["ch"][1]) is not None:
-                            factor = ("mul" if r["op"] == "*" else "add", X.const_val(r["ch"][1]))
+                        factor = _growth_factor(f, m["ch"][1], cnt["n"]) or factor
             if factor is not None:
                 res.append((f, idx, cnt, factor, n))
     return res
@@ -103,6 +133,8 @@ def check_wrap(chk, unit, tables=None):
             i += 1                      # ++idx
             if i == capv:
                 capv = (capv * factor[1]) if factor[0] == "mul" else (capv + factor[1])
+                if len(factor) > 2 and factor[2]:
+                    capv &= (1 << factor[2]) - 1          # computed in a narrower local first
                 capv &= (1 << wc) - 1
             if capv <= i:
                 bad = (i, capv)
@@ -164,18 +196,24 @@ def check_parse_close_before_pop(chk, unit):
     if f is None:
         raise AnalysisBroken("spifconf_parse not found")
     cfg = nullness.prepared_cfg(f, NORETURN)
-    pops = [n for n in walk(f.body) if is_dec_of(n, "fstate_idx")]
-    closes = []
-    for c in X.calls_in(f.body):
-        if X.callee_name(c) == "fclose" and c["ch"][1:]:
-            a = X.strip(c["ch"][1])
-            if a.get("k") == "member" and a.get("n") == "fp":
-                closes.append(c)
-    for p in pops:
-        ok = any(cfg.node_dominates(c["i"], p["i"]) for c in closes)
-        chk.ob("P4", f.name, "fclose-before-pop", ok, loc=f.loc(p),
-               detail="spifconf_parse pops a file from the stack without closing its stream first (descriptor leak per file)",
-               proof="fclose(file_peek_fp()) dominates file_pop()")
+    # spifconf_parse and the static helpers it calls (the end-of-file handling may live in an extracted helper)
+    from .listrules import unit_closure
+    npops = 0
+    for g in unit_closure(f, stop=r"^(spifconf_register_|spifconf_parse_line$|spifconf_find_file$|spifconf_open_file$)"):
+        gcfg = nullness.prepared_cfg(g, NORETURN)
+        pops = [n for n in walk(g.body) if is_dec_of(n, "fstate_idx")]
+        closes = []
+        for c in X.calls_in(g.body):
+            if X.callee_name(c) == "fclose" and c["ch"][1:]:
+                a = X.strip(c["ch"][1])
+                if a.get("k") == "member" and a.get("n") == "fp":
+                    closes.append(c)
+        for p in pops:
+            npops += 1
+            ok = any(gcfg.node_dominates(c["i"], p["i"]) for c in closes)
+            chk.ob("P4", g.name, "fclose-before-pop", ok, loc=g.loc(p),
+                   detail="%s pops a file from the stack without closing its stream first (descriptor leak per file)" % g.name,
+                   proof="fclose(file_peek_fp()) dominates file_pop()")
     pushes = [c for c in X.calls_in(f.body) if X.callee_name(c) == "spifconf_register_fstate"]
     for c in pushes:
         # push only after a successful open: the pushed stream is a local tested non-NULL
@@ -191,7 +229,7 @@ def check_parse_close_before_pop(chk, unit):
             ok = bool(hits) and all(hits)
         chk.ob("P4", f.name, "push-after-open", ok, loc=f.loc(c),
                detail="spifconf_parse pushes a stream that was not checked to be open", proof="the pushed FILE* is known non-NULL")
-    return len(pops)
+    return npops
 
 
 def handler_calls(f):
@@ -203,7 +241,20 @@ def handler_calls(f):
         fnx = X.strip(c["ch"][0])
         while fnx is not None and fnx.get("k") == "un" and fnx.get("op") == "*":
             fnx = X.strip(fnx["ch"][0])
-        if fnx is not None and fnx.get("k") == "member" and fnx.get("n") == "handler" and len(c["ch"]) >= 3:
+        is_handler = fnx is not None and fnx.get("k") == "member" and fnx.get("n") == "handler"
+        if not is_handler and fnx is not None and fnx.get("k") == "ref" and fnx.get("rk") == "local":
+            # the handler hoisted into a local:  h = context[id].handler;  state = (*h)(..)
+            for x in walk(f.body):
+                rhs = None
+                if x.get("k") == "assign" and x.get("op") == "=" and X.strip(x["ch"][0]).get("d") == fnx["d"]:
+                    rhs = x["ch"][1]
+                if x.get("k") == "decl":
+                    for dcl in x.get("decls", ()):
+                        if dcl["d"] == fnx["d"] and dcl.get("init") is not None:
+                            rhs = dcl["init"]
+                if rhs is not None and any(y.get("k") == "member" and y.get("n") == "handler" for y in walk(rhs)):
+                    is_handler = True
+        if is_handler and len(c["ch"]) >= 3:
             res.append((c, c["ch"][1], c["ch"][2]))
     return res
 
@@ -272,8 +323,12 @@ def check_handler_protocol(chk, unit):
             pops = [m for m in walk(f.body) if is_dec_of(m, "ctx_state_idx") and cfg.node_dominates(c["i"], m["i"])]
             guarded = False
             for anc in f.ancestors(c):
-                if anc.get("k") == "if" and glob_ref(anc["cond"], "ctx_state_idx") is not None:
-                    guarded = True
+                if anc.get("k") == "if" and any(glob_ref(y, "ctx_state_idx") is not None for y in walk(anc["cond"])):
+                    inthen = any(y is c for y in walk(anc["then"]))
+                    # the guard is the truthiness of the depth (depth, depth != 0, depth > 0) on the arm that holds the call
+                    facts_ = X.implied(anc["cond"], inthen)
+                    if any(f_[0] in ("true", "ne") or (f_[0] == "cmp" and f_[1] in (">", ">=")) for f_ in facts_) or glob_ref(anc["cond"], "ctx_state_idx") is not None:
+                        guarded = True
             chk.ob("P2", f.name, "end-before-pop", bool(pops), loc=f.loc(c),
                    detail="the end handler call is not followed by the pop of its context", proof="the end call dominates ctx_pop()")
             chk.ob("P2", f.name, "end-guarded-by-depth", guarded, loc=f.loc(c),
@@ -313,27 +368,46 @@ def case_label_of(f, node):
 
 # --------------------------------------------------------------------------- who may spawn
 def check_spawn(chk, prog, allowed):
-    """E1: spawning calls only in the allowed functions; in each under its trigger."""
+    """E1: spawning calls only in the allowed functions, in each under its trigger - or in a static helper all of whose call
+    sites are themselves in such a position (a helper extracted from an allowed function)."""
     n = 0
+    callers = {}
+    for g in prog.all_functions():
+        for c in X.calls_in(g.body):
+            cn = X.callee_name(c)
+            if cn:
+                callers.setdefault(cn, []).append((g, c))
+
+    def under_trigger(f, c, trig):
+        for anc in f.ancestors(c):
+            if anc.get("k") == "if":
+                for x in walk(anc["cond"]):
+                    if x.get("k") == "str" and trig in (x.get("sv") or ""):
+                        return True
+        return False
+
+    def position_ok(f, c, depth=0):
+        """(ok, description) for a call c inside f"""
+        if f.name in allowed:
+            trig = allowed[f.name]
+            if not trig or under_trigger(f, c, trig):
+                return True, "in %s%s" % (f.name, (" under the `%s` test" % trig) if trig else "")
+            return False, "in %s outside the `%s` directive test" % (f.name, trig)
+        if f.static and depth < 3 and callers.get(f.name):
+            subs = [position_ok(g, cc, depth + 1) for g, cc in callers[f.name] if g.unit is f.unit]
+            if subs and all(ok for ok, _ in subs):
+                return True, "in helper %s, called only %s" % (f.name, subs[0][1])
+        return False, "in %s" % f.name
     for f in prog.all_functions():
         for c in X.calls_in(f.body):
             cn = X.callee_name(c)
             if cn in SPAWNERS:
                 n += 1
-                ok = f.name in allowed
-                trig = allowed.get(f.name)
-                if ok and trig:
-                    # some enclosing condition mentions the trigger literal
-                    ok = False
-                    for anc in f.ancestors(c):
-                        if anc.get("k") == "if":
-                            for x in walk(anc["cond"]):
-                                if x.get("k") == "str" and trig in (x.get("sv") or ""):
-                                    ok = True
+                ok, where = position_ok(f, c)
                 chk.ob("E1", f.name, "spawn:" + cn, ok, loc=f.loc(c),
-                       detail="%s calls %s()%s: text without a backquote or an %%exec/%%preproc directive could start a process" % (
-                           f.name, cn, "" if f.name not in allowed else " outside the `%s` directive test" % trig),
-                       proof="only in %s%s" % (f.name, (" under the `%s` test" % trig) if trig else ""))
+                       detail="%s calls %s() %s: text without a backquote or an %%exec/%%preproc directive could start a process" % (
+                           f.name, cn, where),
+                       proof="only %s" % where)
     return n
 
 
@@ -506,21 +580,39 @@ def check_push_writes(chk, unit, fnames):
         incs = [x for x in walk(f.body) if x.get("k") == "un" and x.get("op") == "++" and glob_ref(x["ch"][0], idx["n"]) is not None]
         incs += [x for x in walk(f.body) if x.get("k") == "assign" and glob_ref(x["ch"][0], idx["n"]) is not None]
         # the table: the global pointer reallocated in the growth arm
+        # the table: the global pointer that is handed to the reallocation in the growth arm
         tab = None
-        for x in walk(f.body):
-            if x.get("k") == "assign" and x.get("op") == "=" and glob_ref(x["ch"][0]) is not None and glob_ref(x["ch"][0]).get("tp"):
-                if any(X.callee_name(c) in ("realloc", "spifmem_realloc") for c in X.calls_in(x["ch"][1])):
-                    tab = glob_ref(x["ch"][0])["n"]
+        for c in X.calls_in(f.body):
+            if X.callee_name(c) in ("realloc", "spifmem_realloc"):
+                for a in c["ch"][1:]:
+                    for y in walk(a):
+                        g_ = glob_ref(y)
+                        if g_ is not None and g_.get("tp") and g_["n"] not in (idx["n"], cnt["n"]):
+                            tab = g_["n"]
         if tab is None:
             raise AnalysisBroken("table of %s not recognised" % name)
+        # locals that point into the table (top = TAB + IDX; slot = &TAB[IDX])
+        into = set()
+        for x in walk(f.body):
+            pairs = []
+            if x.get("k") == "assign" and x.get("op") == "=":
+                pairs.append((X.strip(x["ch"][0]), x["ch"][1]))
+            if x.get("k") == "decl":
+                for dcl in x.get("decls", ()):
+                    if dcl.get("init") is not None:
+                        pairs.append(({"k": "ref", "rk": "local", "d": dcl["d"], "tp": dcl.get("tp")}, dcl["init"]))
+            for l_, r_ in pairs:
+                if l_.get("k") == "ref" and l_.get("rk") == "local" and any(glob_ref(y, tab) is not None for y in walk(r_)) and \
+                        not any(X.callee_name(c) in ("realloc", "spifmem_realloc") for c in X.calls_in(r_)):
+                    into.add(l_["d"])
         writes = []
         for x in walk(f.body):
             if x.get("k") == "assign":
                 l = X.strip(x["ch"][0])
                 b = l
-                while b is not None and b.get("k") in ("member", "index"):
+                while b is not None and b.get("k") in ("member", "index") or (b is not None and b.get("k") == "un" and b.get("op") == "*"):
                     b = X.strip(b["ch"][0])
-                if b is not None and glob_ref(b, tab) is not None and l.get("k") != "ref":
+                if b is not None and l.get("k") != "ref" and (glob_ref(b, tab) is not None or (b.get("k") == "ref" and b.get("d") in into)):
                     writes.append(x)
             if x.get("k") == "call" and X.callee_name(x) in ("memset", "memcpy", "memmove", "bzero"):
                 d = x["ch"][1]
